@@ -121,6 +121,7 @@ func cmdCheck(args []string) int {
 		o.seed, _ = strconv.ParseInt(s, 10, 64)
 	}
 	rtTemplatePath = filepath.Join(o.verif, "harness", "rt", "rt.go.tmpl")
+	replayTier = o.tier
 	t0 := time.Now()
 	rep := runCheck(&o)
 	rep.WallS = time.Since(t0).Seconds()
